@@ -617,6 +617,7 @@ class QueryObjectDescriptor(CanBehaveLikeAVariable[T], ABC):
     selected_variables: List[CanBehaveLikeAVariable[T]] = field(default_factory=list)
     warned_vars: typing.Set = field(default_factory=set, init=False)
     rule_mode: bool = field(default=False, init=False)
+    _variables_inferred_for_this_evaluation_: List[CanBehaveLikeAVariable[T]] = field(default_factory=list, init=False)
 
     def __post_init__(self):
         super().__post_init__()
@@ -718,7 +719,17 @@ class QueryObjectDescriptor(CanBehaveLikeAVariable[T], ABC):
     def _inform_selected_variables_that_they_should_be_inferred_(self):
         if self.rule_mode and self._child_ and self._child_ is self._conditions_root_:
             for selected_variable in self.selected_variables:
-                selected_variable._is_inferred_ = True
+                if not selected_variable._is_inferred_:
+                    selected_variable._is_inferred_ = True
+                    self._variables_inferred_for_this_evaluation_.append(selected_variable)
+
+    def _reset_only_my_cache_(self) -> None:
+        super()._reset_only_my_cache_()
+        # a selected variable is inferred only while this rule is evaluated, other queries that share it range over its
+        # domain as before.
+        for selected_variable in self._variables_inferred_for_this_evaluation_:
+            selected_variable._is_inferred_ = False
+        self._variables_inferred_for_this_evaluation_ = []
 
     def __repr__(self):
         return self._name_
